@@ -446,6 +446,15 @@ func expandStack(stack []any, mi int) []any {
 	return nstack
 }
 
+// same is left == right for values that can be compared; containers and other
+// uncomparable values are never equal (and must not reach ==, which panics).
+func same(left, right any) bool {
+	if left != nil && !reflect.TypeOf(left).Comparable() {
+		return false
+	}
+	return left == right
+}
+
 func evalStack(sstack []any) []any {
 	for i := len(sstack) - 1; 0 <= i; i-- {
 		o, _ := sstack[i].(*op)
@@ -467,7 +476,7 @@ func evalStack(sstack []any) []any {
 		case group.code:
 			sstack[i] = left
 		case eq.code:
-			if left == right {
+			if same(left, right) {
 				sstack[i] = true
 			} else {
 				sstack[i] = false
@@ -482,7 +491,7 @@ func evalStack(sstack []any) []any {
 				}
 			}
 		case neq.code:
-			if left == right {
+			if same(left, right) {
 				sstack[i] = false
 			} else {
 				sstack[i] = true
@@ -682,7 +691,7 @@ func evalStack(sstack []any) []any {
 			sstack[i] = false
 			if list, ok := right.([]any); ok {
 				for _, ev := range list {
-					if left == ev {
+					if same(left, ev) {
 						sstack[i] = true
 						break
 					}
